@@ -33,7 +33,7 @@ T = {
          "For every state of the listed neighbourhoods (start position to 2 plies, 14 endings to 1-3 plies, middlegame roots, 23 tactical roots with colour mirrors and every state one ply from them) a fresh Searcher is searched to depth 1, 2, 3 and compared with the reference value V(s,k) computed without pruning, ordering or caching: exact equality inside the window, won/lost beyond it, and the returned move must attain the value. Depth 4..5 single fixed-depth searches are compared only when the TT-cutoff counter shows no deeper entry was reused.",
          "Leaf values are the subject's own quiescence values by the property's definition; states whose quiescence exceeds the node cap are excluded and counted.", "3/C05"),
  "C06": (True, "fault_enumeration", "crash-point enumeration under the node clock: deadline at every node 0..T of a search (and pairs of deadlines), then a completed search on the same Searcher vs the reference value; repetition-stack length before/after",
-         "For 12 positions x depth 2,3 the deadline is placed at every node count of the uninterrupted search (T up to 6000 quick / 40000 thorough), on a fresh Searcher each time; the completed search that follows must report the reference minimax value and a move that attains it, and the game-history stack must have its original length. Small searches also get every pair of interruptions.",
+         "For 12 positions x depth 2,3 the deadline is placed at every node count of the uninterrupted search (T up to 6000 quick / 40000 thorough), on a fresh Searcher each time; the completed search that follows (same depth; also one ply deeper when the table served nothing from a deeper entry) must report the reference minimax value and a move that attains it, and the game-history stack must have its original length; with a recorded game history in place the answers of the real repetition query for the root and its successors must be unchanged by the interrupted search. Small searches also get every pair of interruptions.",
          "Equal maximum depth <= 3 for the interrupted and the completed search, so no deeper entry can serve the final iteration (DESIGN.md C06).", "3/C06"),
  "C07": (True, "fault_enumeration", "same crash-point sweep: nodes visited beyond the deadline node <= 2048, including positions whose quiescence search explodes; watchdog turns a search that never answers into a verdict",
          "Under the node clock the deadline falls at an exact node; the number of nodes visited beyond it is a deterministic count. Enumerated for every deadline of the C06 sweeps and for deadlines 0..600 (quick) / 0..3000 (thorough) at depth 1 and 2 on three valid positions whose quiescence tree has > 10^6 nodes.",
